@@ -76,19 +76,16 @@ def ref_problems(lib, refs):
             # is a violation of "independent of how often it is rendered", not a library problem
             k, prev_ok, rep = -1, None, None
             for st, outcome in zip(d["steps"], a["steps"]):
-                if st["s"] in ("render", "cli_render"):
+                if st["s"] in ("render", "cli_render", "to_code", "export"):
                     k += 1
                     if outcome.startswith("exc:") and prev_ok == st:
                         rep = (k, outcome)
                         break
                     prev_ok = st if outcome == "ok" else None
-                elif st["s"] in ("to_code", "export"):
-                    k += 1
-                    prev_ok = None
                 elif st["s"] != "touch":
                     prev_ok = None
             first_bad = next(i for i, s_ in enumerate(a["steps"]) if s_.startswith("exc:"))
-            if rep is not None and d["steps"][first_bad]["s"] in ("render", "cli_render") and \
+            if rep is not None and d["steps"][first_bad]["s"] in ("render", "cli_render", "to_code", "export") and \
                     a["steps"][:first_bad].count("ok") == first_bad:
                 hs_viol.append({"desc": d, "render": rep[0], "clause": "repeated-render-differs",
                                 "files": [f"the repeated request raised {rep[1][4:200]}"]})
@@ -113,16 +110,13 @@ def ref_problems(lib, refs):
         k = -1
         prev = None
         for st in d["steps"]:
-            if st["s"] in ("render", "cli_render"):
+            if st["s"] in ("render", "cli_render", "to_code", "export"):
                 k += 1
                 if prev is not None and prev[0] == st and ra[k] != ra[prev[1]]:
                     hs_viol.append({"desc": d, "render": k, "clause": "repeated-render-differs",
                                     "files": diff_files(a["renders"][k], a["renders"][prev[1]])})
                     break
                 prev = (st, k)
-            elif st["s"] in ("to_code", "export"):
-                k += 1
-                prev = None
             elif st["s"] not in ("touch",):
                 prev = None
     # prior renderings (and to_code / export calls) must not influence a later rendering
